@@ -114,7 +114,6 @@ const (
 	keyProportion = "proportionality:proposals-per-period!=voting-power"
 	keyCtorOrder  = "NewValidatorSet:result-depends-on-input-order"
 	keyCtorSort   = "NewValidatorSet:not-sorted-by-address"
-	keyCtorModel  = "NewValidatorSet:initial-rotation-differs-from-reference"
 	keyHashAccum  = "Hash:depends-on-priorities-or-proposer"
 	keyHashColl   = "Hash:two-different-sets-one-hash"
 	keyPanic      = "panic"
@@ -164,6 +163,7 @@ func checkSet(powers []int64, cfg rotCfg, deadline func() bool) (sr *setResult) 
 		sr.add(keyCtorSort, fmt.Sprintf("NewValidatorSet%s is not strictly sorted by address", desc), rp(nil))
 		return
 	}
+	pre := ref.clone()
 	ref.step() // the constructor performs the first rotation
 	h0 := s.Hash()
 	if prev, ok := claimHash(h0, ref.content()); !ok {
@@ -174,34 +174,18 @@ func checkSet(powers []int64, cfg rotCfg, deadline func() bool) (sr *setResult) 
 		if real == want {
 			return true
 		}
-		key := keyStepAccum
-		switch {
-		case real.a == want.a || real.prop != want.prop:
-			key = keyStepProp
-			// a tie at the top before the decrement?
-			b := before.clone()
-			for i := range b.v {
-				b.v[i].a, _ = addClip(b.v[i].a, b.v[i].p)
-			}
-			top := b.argmax()
-			for i := range b.v {
-				if i != top && b.v[i].a == b.v[top].a {
-					key = keyStepTie
-				}
-			}
-		case ref.clipped:
-			key = keyStepWrap
-		}
+		key := classifyStep(before, real)
+		d := desc
 		if j == 0 {
-			key = keyCtorModel
+			d += " (step #0 is the rotation performed by NewValidatorSet)"
 		}
-		sr.add(key, fmt.Sprintf("set %s, single step #%d: real %s, reference %s", desc, j, real.str(n), want.str(n)), rp(map[string]interface{}{"single_steps": j}))
+		sr.add(key, fmt.Sprintf("set %s, single step #%d: real %s, reference %s", d, j, real.str(n), want.str(n)), rp(map[string]interface{}{"single_steps": j}))
 		return false
 	}
 	okSingles := true
 	singles[0] = rotState(s)
 	seen[singles[0]] = struct{}{}
-	if !cmp(0, singles[0], newModel()) {
+	if !cmp(0, singles[0], pre) {
 		okSingles = false
 	}
 	if tv, want := s.TotalVotingPower(), ref.total(); tv != want {
@@ -340,11 +324,12 @@ func checkSet(powers []int64, cfg rotCfg, deadline func() bool) (sr *setResult) 
 			}
 			for j := 1; j < steps; j++ {
 				y.IncrementAccum(1)
+				pre := rm.clone()
 				rm.step()
 				st := rotState(y)
 				seq[j] = st.prop
 				if st != modelState(rm) {
-					sr.add(keyStepProp, fmt.Sprintf("set %s, single step #%d: real %s, reference %s", desc, j, st.str(n), modelState(rm).str(n)), rp(map[string]interface{}{"single_steps": j}))
+					sr.add(classifyStep(pre, st), fmt.Sprintf("set %s, single step #%d: real %s, reference %s", desc, j, st.str(n), modelState(rm).str(n)), rp(map[string]interface{}{"single_steps": j}))
 					return
 				}
 				if j == int(T)-1 {
@@ -496,4 +481,30 @@ func enumSets(alpha []int64, minn, maxn int) [][]int64 {
 		}
 	}
 	return out
+}
+
+// classifyStep names the root cause of a single rotation that differs from the reference: before is the reference
+// state before the step, real the state the implementation reached.
+func classifyStep(before *model, real rstate) string {
+	b := before.clone()
+	b.clipped = false
+	b.step()
+	want := modelState(b)
+	if b.clipped && real.a != want.a {
+		return keyStepWrap
+	}
+	if real.prop != want.prop {
+		t := before.clone()
+		for i := range t.v {
+			t.v[i].a, _ = addClip(t.v[i].a, t.v[i].p)
+		}
+		top := t.argmax()
+		for i := range t.v {
+			if i != top && t.v[i].a == t.v[top].a {
+				return keyStepTie
+			}
+		}
+		return keyStepProp
+	}
+	return keyStepAccum
 }
